@@ -54,7 +54,9 @@ class C07(ParamsProp):
     def corpus(self):
         return [dict(c) for c in CLAUSES] + super().corpus()
 
-    def cases(self, tier, seed):
+    families = {"deep_ref_layers": 150, "wide_mapping": 15, "both_flags": 40}
+
+    def base_cases(self, tier, seed):
         N = 1500 if tier == "quick" else 40000
         for i in range(N):
             r = Rng(seed, "C07", i)
